@@ -46,7 +46,17 @@ def replay(path):
     if not fi:
         print(f"no failing input recorded for obligation {rec.get('obligation')} (solver output in file)")
         return 2
-    r = runner.run_concrete(u, rec["skeleton"], seed=fi.get("seed", 0), sizes=fi.get("sizes"), values=fi.get("inputs"), numbers={k: v for k, v in (fi.get("inputs") or {}).items() if not isinstance(v, list)})
+    inputs = fi.get("inputs") or {}
+    r = runner.run_concrete(
+        u,
+        rec["skeleton"],
+        seed=fi.get("seed", 0),
+        sizes=fi.get("sizes"),
+        values={k: v for k, v in inputs.items() if isinstance(v, list)},
+        numbers={k: v for k, v in inputs.items() if isinstance(v, (int, float))},
+        positions=inputs.get("_positions"),
+        subsets=inputs.get("_subsets"),
+    )
     print(json.dumps(r, indent=1)[:3000])
     return 1 if r["status"] == "fail" else 0
 
